@@ -104,7 +104,7 @@ class Known:
 class Ctx:
     """Handed to every property harness."""
 
-    MAX_SAMPLES = 8
+    MAX_SAMPLES = 12
 
     def __init__(self, pid, tier, seed, workers, level):
         self.pid = pid
